@@ -48,7 +48,8 @@ def polars_version() -> version.Version:
 
 
 def convert_py_dtype_to_polars_dtype(dtype):
-    if isinstance(dtype, DataTypeClass):
+    # polars data type classes and instances need no conversion
+    if isinstance(dtype, (DataTypeClass, pl.DataType)):
         return dtype
 
     if polars_version().release < (1, 0, 0):
